@@ -6,6 +6,7 @@ import Driver.Topic
 import Driver.Fanout
 import Driver.PubSub
 import Driver.ReqRep
+import Driver.PubClient
 
 /-! `drv`: one case per input line, one result per output line (see /verif/DESIGN.md, section 3.2). -/
 
@@ -19,6 +20,8 @@ def step (line : String) : String :=
   | "fan" :: rest => Driver.Fanout.run rest
   | "ps" :: rest => Driver.PubSub.run rest
   | "rr" :: rest => Driver.ReqRep.run rest
+  | "pp" :: rest => Driver.PubClient.run rest
+  | "ppx" :: rest => Driver.PubClient.run rest
   | "tn" :: rest => Driver.Topic.run "tn" rest
   | "tc" :: rest => Driver.Topic.run "tc" rest
   | op :: rest =>
